@@ -1,4 +1,5 @@
 import TwistedModel.Web.Flatten
+import TwistedModel.Web.FlattenIO
 import TwistedModel.Web.Tok
 /-!
 Driver glue for C28.  `C28 flat <tree…>`: the tree in prefix notation, bytes as hex (`-` = empty):
@@ -10,9 +11,49 @@ Answer: `<flattened hex>|x=<xml tokens>|h=<html tokens, CDATA recognised>|n=<htm
 or `!raised FlattenerError(<wrapped>)`.  Tokens: `t:h` `s:name:a=v,a=v:0|1` `e:name` `c:h` joined by `;`, `!` if not
 tokenizable in the modelled subset.
 `C28 tok <hex>` tokenizes given bytes (same three token fields).
+`C28 flatb <tree…>`: the flattened bytes only (large content: the tokenizers of `Tok` append to their accumulators
+with `cur ++ [c]`, quadratic in the length of a payload; the flattener model is linear).
+`C28 flatw <B> <tree…>` / `C28 flatbw <B> <tree…>`: as `flat` / `flatb`, computed by the chunk-level model
+(`Twisted.Web.FlattenIO.flattenStringIO`): the tree's `write` calls, each chunk through its attribute wrappers, pushed
+through `bufferedWrite` with BUFFER_SIZE = B, the delivered chunks joined.
+
+Content strings (text, comment, CDATA, slot values) and the flattened bytes use run-length hex: segments joined by
+`+`, each `hex` or `hex*count` (`61*65534+5d5d3e`); in the answer every maximal run of >= 16 equal bytes is one
+`xx*n` segment (`hexR`, the same function as `hxr` in harness/corr/C28.py).
 -/
 namespace Twisted.Drv.C28
-open Twisted.Py Twisted.Web.Flatten Twisted.Web.Tok
+open Twisted.Py Twisted.Web.Flatten Twisted.Web.Tok Twisted.Web.FlattenIO
+
+/-- run-length hex → bytes -/
+def unhexR (s : String) : Option Bytes :=
+  if s = "-" then some []
+  else do
+    let segs ← (s.splitOn "+").mapM fun seg =>
+      match seg.splitOn "*" with
+      | [h] => unhexAux h.toList
+      | [h, n] => do
+        let b ← unhexAux h.toList
+        let n ← n.toNat?
+        pure (List.replicate n b).flatten
+      | _ => none
+    pure segs.flatten
+
+partial def runsGo : Bytes → UInt8 → Nat → Array (UInt8 × Nat) → Array (UInt8 × Nat)
+  | [], c, n, acc => acc.push (c, n)
+  | x :: xs, c, n, acc => if x = c then runsGo xs c (n + 1) acc else runsGo xs x 1 (acc.push (c, n))
+
+def hex2 (c : UInt8) : String := String.ofList [hexChar (c.toNat / 16), hexChar (c.toNat % 16)]
+
+/-- bytes → run-length hex: maximal runs of >= 16 equal bytes become `xx*n` -/
+def hexR : Bytes → String
+  | [] => "-"
+  | b :: rest =>
+    let rs := runsGo rest b 1 #[]
+    let (segs, lit) := rs.foldl (init := ((#[] : Array String), "")) fun (segs, lit) (c, n) =>
+      if n ≥ 16 then
+        ((if lit.isEmpty then segs else segs.push lit).push (hex2 c ++ "*" ++ toString n), "")
+      else (segs, (List.replicate n (hex2 c)).foldl (· ++ ·) lit)
+    "+".intercalate (if lit.isEmpty then segs else segs.push lit).toList
 
 def decFrame (s : String) : Option (Option Frame) :=
   if s = "N" then some none
@@ -22,16 +63,16 @@ def decFrame (s : String) : Option (Option Frame) :=
       match p.splitOn "=" with
       | [k, v] => do
         let k ← unhex k
-        let v ← unhex v
+        let v ← unhexR v
         pure (k, v)
       | _ => none
     pure (some ps)
 
 mutual
 partial def decNode : List String → Option (Node × List String)
-  | "T" :: h :: r => (unhex h).map fun b => (Node.text b, r)
-  | "C" :: h :: r => (unhex h).map fun b => (Node.comment b, r)
-  | "D" :: h :: r => (unhex h).map fun b => (Node.cdata b, r)
+  | "T" :: h :: r => (unhexR h).map fun b => (Node.text b, r)
+  | "C" :: h :: r => (unhexR h).map fun b => (Node.comment b, r)
+  | "D" :: h :: r => (unhexR h).map fun b => (Node.cdata b, r)
   | "S" :: h :: r => (unhex h).map fun b => (Node.slot b, r)
   | "SD" :: h :: r => do
     let n ← unhex h
@@ -107,9 +148,30 @@ def handle (args : List String) : String :=
     match decNode rest with
     | some (t, []) =>
       match flattenString t with
-      | .ok out => hex out ++ "|" ++ threeWays out
+      | .ok out => hexR out ++ "|" ++ threeWays out
       | .error e => "!raised FlattenerError(" ++ showErr e ++ ")"
     | _ => "bad-op"
+  | "flatb" :: rest =>
+    match decNode rest with
+    | some (t, []) =>
+      match flattenString t with
+      | .ok out => hexR out
+      | .error e => "!raised FlattenerError(" ++ showErr e ++ ")"
+    | _ => "bad-op"
+  | "flatw" :: b :: rest =>
+    match b.toNat?, decNode rest with
+    | some B, some (t, []) =>
+      match flattenStringIO B t with
+      | .ok out => hexR out ++ "|" ++ threeWays out
+      | .error e => "!raised FlattenerError(" ++ showErr e ++ ")"
+    | _, _ => "bad-op"
+  | "flatbw" :: b :: rest =>
+    match b.toNat?, decNode rest with
+    | some B, some (t, []) =>
+      match flattenStringIO B t with
+      | .ok out => hexR out
+      | .error e => "!raised FlattenerError(" ++ showErr e ++ ")"
+    | _, _ => "bad-op"
   | ["tok", h] =>
     match unhex h with
     | some doc => threeWays doc
